@@ -14,6 +14,7 @@ ap.add_argument("--checks", default=None); ap.add_argument("--modelrun", default
 ap.add_argument("--skip-make", action="store_true"); ap.add_argument("--tier", default="quick")
 ap.add_argument("--no-tests", action="store_true")
 a = ap.parse_args()
+a.src = os.path.abspath(a.src)
 meta = json.load(open(os.path.join(a.src, "meta.json")))
 pid = meta["property"]
 checks = a.checks.split(",") if a.checks else [pid]
@@ -56,12 +57,15 @@ try:
 finally:
     sh("git -C /repo worktree remove --force %s" % wt)
 ok = conf.get("demo_exit_unchanged") == 0 and conf.get("demo_exit_patched", 0) != 0 and ("245 passed" in conf.get("tests_with_patch", "245 passed"))
+if "tests_with_patch" not in conf and isinstance(meta.get("confirmed"), dict) and "tests_with_patch" in meta["confirmed"]:
+    conf["tests_with_patch"] = meta["confirmed"]["tests_with_patch"] + " (from the first confirmation)"
 meta["confirmed"] = conf
 meta["confirmed_ok"] = ok
 meta["detected_by"] = [c for c, d in conf.get("checks", {}).items() if d["exit"] == 1 and d["violation_line"]]
 dst = os.path.join(VERIF, "seeded", a.name)
 os.makedirs(dst, exist_ok=True)
 for f in ("patch.diff", "demo.py"):
-    shutil.copy(os.path.join(a.src, f), os.path.join(dst, f))
+    if os.path.abspath(os.path.join(a.src, f)) != os.path.abspath(os.path.join(dst, f)):
+        shutil.copy(os.path.join(a.src, f), os.path.join(dst, f))
 json.dump(meta, open(os.path.join(dst, "meta.json"), "w"), indent=1)
 print(json.dumps({"name": a.name, "ok": ok, "detected_by": meta["detected_by"], "conf": {k: v for k, v in conf.items() if k != "demo_tail_patched"}}, indent=1))
